@@ -383,6 +383,11 @@ class Backend(ABC):
         if not all([isinstance(arg.value, (SigmaString, SigmaNumber)) for arg in args]):
             return False
 
+        # Case-sensitive strings and timestamp parts are specialized strings/numbers that need their
+        # own expressions. They can't be merged into a plain value list without changing the match.
+        if any([isinstance(arg.value, (SigmaCasedString, SigmaTimestampPart)) for arg in args]):
+            return False
+
         # Check for plain strings if wildcards are not allowed for string expressions.
         if not self.in_expressions_allow_wildcards and any(
             [arg.value.contains_special() for arg in args if isinstance(arg.value, SigmaString)]
